@@ -12,6 +12,7 @@ import (
 	kubeeventsmanager "github.com/flant/shell-operator/pkg/kube_events_manager"
 	kemtypes "github.com/flant/shell-operator/pkg/kube_events_manager/types"
 	utils "github.com/flant/shell-operator/pkg/utils/labels"
+	"github.com/flant/shell-operator/pkg/utils/verifhook"
 )
 
 // KubernetesBindingToMonitorLink is a link between a binding config and a Monitor.
@@ -89,6 +90,7 @@ func (c *kubernetesBindingsController) EnableKubernetesBindings() ([]BindingExec
 			MonitorId:     config.Monitor.Metadata.MonitorId,
 			BindingConfig: config,
 		})
+		verifhook.Point("kbc.betweenAddAndStart", config.Monitor.Metadata.MonitorId, config.BindingName)
 		// Start monitor's informers to fill the cache.
 		c.kubeEventsManager.StartMonitor(config.Monitor.Metadata.MonitorId)
 
